@@ -48,8 +48,9 @@ def anchors():
 def exp_tabular(b):
     n = len(b['aligns'])
     rows = []
-    last = len(b['rows']) - 1
-    for ri, row in enumerate(b['rows']):
+    src_rows = [row for row in b['rows'] if not row.get('blank')]      # rows without text or rule are dropped ("r non-empty rows yield r rows")
+    last = len(src_rows) - 1
+    for ri, row in enumerate(src_rows):
         cells = []
         col = 0
         for c in row['cells']:
@@ -127,13 +128,13 @@ def cases(seed, tier, shard, nshards):
     for i in common.sharded(budget(tier)['n'], shard, nshards):
         r = common.rng_for(seed, PROP, i)
         heavy = r.choice(['lists', 'tables', 'both'])
-        d = docs.gen(r, rich_tables=True, lists=heavy != 'tables', tables=heavy != 'lists', floats=False, theorems=r.random() < 0.2, verbatim=False,
+        d = docs.gen(r, rich_tables=True, blank_rows=r.choice([0, 0.15]), lists=heavy != 'tables', tables=heavy != 'lists', floats=False, theorems=r.random() < 0.2, verbatim=False,
                      refs=False, labels=False, footnotes=r.random() < 0.3, depth=r.choice([2, 3, 4, 5]) if heavy == 'lists' else r.choice([1, 2]),
                      maxsec=3, blocks=(1, 4), sections=r.random() < 0.5)
         lists, tabs = ast_objects(d)
         tries = 0
         while not lists and not tabs and tries < 6:
-            d = docs.gen(r, rich_tables=True, lists=heavy != 'tables', tables=heavy != 'lists', floats=False, theorems=False, verbatim=False,
+            d = docs.gen(r, rich_tables=True, blank_rows=r.choice([0, 0.15]), lists=heavy != 'tables', tables=heavy != 'lists', floats=False, theorems=False, verbatim=False,
                          refs=False, labels=False, footnotes=False, depth=3, maxsec=2, blocks=(2, 5), sections=False)
             lists, tabs = ast_objects(d)
             tries += 1
